@@ -101,3 +101,56 @@ Proof.
   - intros H. discriminate H.
   - vm_compute. reflexivity.
 Qed.
+
+(* ---- the order in which the cell blocks (one per cell type) are listed is not compared either ------------------ *)
+Lemma rows_of_notin t : forall bl, ~ In t (map fst bl) -> rows_of t bl = [].
+Proof.
+  induction bl as [|[u rows] bl IH]; intros H; cbn [rows_of]; [reflexivity|].
+  destruct (u =? t) eqn:E.
+  - apply Nat.eqb_eq in E. exfalso. apply H. left. exact E.
+  - apply IH. intros H'. apply H. right. exact H'.
+Qed.
+
+Lemma rows_of_perm t : forall bl bl' : list (nat * list (list nat)),
+  Permutation bl bl' -> NoDup (map fst bl) -> rows_of t bl = rows_of t bl'.
+Proof.
+  intros bl bl' HP. induction HP as [|[u rows] l l' HP IH|[u1 r1] [u2 r2] l|l l' l'' HP1 IH1 HP2 IH2]; intros Hnd.
+  - reflexivity.
+  - cbn [rows_of]. destruct (u =? t); [reflexivity|]. apply IH. cbn [map fst] in Hnd. inversion Hnd; assumption.
+  - cbn [rows_of]. destruct (u1 =? t) eqn:E1; destruct (u2 =? t) eqn:E2; try reflexivity.
+    apply Nat.eqb_eq in E1, E2. subst. cbn [map fst] in Hnd. inversion Hnd as [|x l0 Hn _]; subst.
+    exfalso. apply Hn. left. reflexivity.
+  - rewrite IH1 by exact Hnd. apply IH2.
+    apply (Permutation_NoDup (l := map fst l)); [apply Permutation_map; exact HP1|exact Hnd].
+Qed.
+
+Theorem block_order_irrelevant rel abs A B :
+  (0 <= abs)%Q -> NoDup (cell_types A) -> pts A = pts B -> Permutation (cells A) (cells B) ->
+  mesh_equal rel abs A B = true.
+Proof.
+  intros Habs Hnd Hp HP. unfold mesh_equal. rewrite <- Hp, (points_close_refl rel abs (pts A) Habs). cbn [andb].
+  assert (HT : Permutation (cell_types A) (cell_types B)) by (apply Permutation_map; exact HP).
+  unfold match_types. rewrite (Permutation_length HT), Nat.eqb_refl.
+  rewrite (match_types_aux_refl (cell_types A) (cell_types B) []);
+    [|intros s Hs; apply (Permutation_in _ HT); exact Hs|exact Hnd|intros s _ H; exact H].
+  apply forallb_forall. intros [s t] Hst. apply in_map_iff in Hst. destruct Hst as [s' [E _]]. inversion E; subst.
+  cbn [fst snd]. rewrite (rows_of_perm t _ _ HP Hnd). apply rows_equal_refl.
+Qed.
+
+Corollary mesh_equal_refl rel abs M : (0 <= abs)%Q -> NoDup (cell_types M) -> mesh_equal rel abs M M = true.
+Proof. intros Habs Hnd. apply block_order_irrelevant; [exact Habs|exact Hnd|reflexivity|apply Permutation_refl]. Qed.
+
+(* the hypothesis is needed: a mesh listing one cell type in two blocks is not even equal to itself in the model
+   (the implementation keeps one block per type, so its meshes meet the hypothesis) *)
+Example mesh_equal_refl_needs_distinct_types :
+  mesh_equal (1#1000) (0#1) {| pts := [[0#1]; [1#1]]%Q; cells := [(3, [[0; 1]]); (3, [[1; 0]])] |}
+                            {| pts := [[0#1]; [1#1]]%Q; cells := [(3, [[0; 1]]); (3, [[1; 0]])] |} = false.
+Proof. vm_compute. reflexivity. Qed.
+
+Example block_order_example :
+  let A := {| pts := [[0#1; 0#1]; [1#1; 0#1]; [1#1; 1#1]; [0#1; 1#1]]%Q; cells := [(5, [[0; 1; 2]; [0; 2; 3]]); (3, [[0; 1]])] |} in
+  let B := {| pts := pts A; cells := [(3, [[0; 1]]); (5, [[0; 1; 2]; [0; 2; 3]])] |} in
+  A <> B /\ Permutation (cells A) (cells B) /\ mesh_equal (1#1000) (0#1) A B = true.
+Proof.
+  cbv zeta. split; [intros H; discriminate H|split; [apply perm_swap|vm_compute; reflexivity]].
+Qed.
